@@ -380,6 +380,12 @@ func nativeSortSearch(v *Verifier, s *State, c *ssa.CallCommon, f *ssa.Function,
 		st := s.clone()
 		st.assume(Lt(r, n))
 		res := v.inline(st, fn.Clo.Fn, []*Value{scalar(intT, r)}, fn.Clo, p)
+		if os.Getenv("GOVC_DEBUG") != "" {
+			fmt.Fprintf(os.Stderr, "DEBUG sort.Search f(r): res=%v dead=%v forks=%d\n", res != nil, st.dead, len(v.forks))
+			if res != nil {
+				fmt.Fprintf(os.Stderr, "DEBUG   term=%s\n", trunc(res.term().String(), 300))
+			}
+		}
 		if res != nil && !st.dead {
 			s.assume(Implies(Lt(r, n), res.term()))
 		}
